@@ -94,6 +94,14 @@ func (f *Font) DecodeString(data []byte) string {
 
 	// Priority 4: Fall back to raw bytes as string
 	decoded = string(data)
+	if !IsValidUTF8(decoded) {
+		// Not UTF-8: read the bytes as Latin-1 rather than returning an invalid string
+		runes := make([]rune, len(data))
+		for i, b := range data {
+			runes[i] = rune(b)
+		}
+		decoded = string(runes)
+	}
 	return NormalizeUnicode(decoded)
 }
 
